@@ -36,11 +36,12 @@ def oracle(c):
     fails = []
     est = T.make_topo(c)
     o = c["ops"][0]
-    if o.get("veto"):
-        return fails
+    vs = o.get("veto")
     X = np.array(o["X"], dtype=float)
     mode, eps = o["mode"], float(o["eps"])
     strict = mode in ("MT0", "MT~")
+    keys, _ = B.row_keys(X)
+    veto = B.Veto(est, vs["tbl"], vs["a"], vs["b"], keys) if vs else None
 
     def rep(sig, what, i=None):
         return {"signature": f"TopoART/{sig}", "text": what, "replay": dict(T.summary_t(c), failing_sample=i)}
@@ -63,15 +64,31 @@ def oracle(c):
                     t, cache = est.category_choice(x, w, params=est.base_module.params)
                     m, _ = est.match_criterion(x, w, params=est.base_module.params, cache=cache)
                     Tv.append(float(t)); Mv.append(float(m))
-                rho = float(est.base_module.params["rho"])
+                rho = float(c["k"]["rho"])          # the configured vigilance (C07: restored after every sample)
                 order = sorted(range(n0), key=lambda k: (-Tv[k], k))
-                passing = [k for k in order if ((Mv[k] > rho) if strict else (Mv[k] >= rho))]
+                key = keys[x.tobytes()]
+                passing = []
+                for k in order:       # the reset function and the mode's match tracking, from the configured vigilance
+                    okv = bool(vs["tbl"][(vs["a"] * key + vs["b"] * k) % len(vs["tbl"])]) if vs else True
+                    if okv and ((Mv[k] > rho) if strict else (Mv[k] >= rho)):
+                        passing.append(k)
+                        if len(passing) == 2:
+                            break
+                    elif not okv:
+                        if mode == "MT+":
+                            rho = Mv[k] + eps
+                        elif mode == "MT-":
+                            rho = Mv[k] - eps
+                        elif mode == "MT0":
+                            rho = Mv[k]
+                        elif mode == "MT1":
+                            break
                 exp = (passing[0] if passing else None, passing[1] if len(passing) > 1 else None)
                 A0 = np.array(est.adjacency).copy()
                 cnt0 = list(est.weight_sample_counter_)
             try:
                 est.pre_step_fit(X)
-                cwin = est.step_fit(x, match_tracking=mode, epsilon=eps)
+                cwin = est.step_fit(x, match_reset_func=veto, match_tracking=mode, epsilon=eps)
             except Exception:
                 return fails
             if n0:
@@ -130,6 +147,9 @@ def oracle(c):
                             fails.append(rep("prune-labels", "orphan not marked -1 although nothing survived", i)); return fails
                     elif not (0 <= new < len(keep)):
                         fails.append(rep("prune-labels", "orphan not re-predicted into a surviving category", i)); return fails
+                    elif j <= i and new != int(est.step_pred(X[j])):
+                        fails.append(rep("prune-labels", f"round after sample {i}: orphaned row {j} (label {old}) got label {new}, "
+                                         f"its prediction under the pruned model is {int(est.step_pred(X[j]))}", i)); return fails
             why = aligned(est)
             if why:
                 fails.append(rep("aligned", f"after the pruning round following sample {i}: {why}", i)); return fails
